@@ -6,6 +6,7 @@ import (
 
 // Additional models (context, xrand, misc).
 func (i *interpreter) registerExtraModels() {
+	i.registerPromModels()
 	i.addModel("context.WithValue", "real valueCtx node; key comparability decided by go/types (the real code asks reflectlite)", func(fr *frame, a []value) value {
 		parent := a[0].(iface)
 		key := a[1].(iface)
@@ -23,4 +24,108 @@ func (i *interpreter) registerExtraModels() {
 		var cell value = structure{parent, key, a[2]}
 		return iface{types.NewPointer(tn.Type()), &cell}
 	})
+}
+
+// ---------------------------------------------------------------------------
+// Prometheus client stubs (C19): counters count Inc calls, observers count
+// Observe calls; vectors hand out one child per vector.
+
+const promPkg = "github.com/prometheus/client_golang/prometheus"
+
+type promCount struct{ n int64 }
+
+func (i *interpreter) promObj(fr *frame, typeName string) value {
+	pkg := fr.i.prog.ImportedPackage(promPkg)
+	if pkg == nil {
+		panic(unsupported("prometheus package not loaded"))
+	}
+	tn := pkg.Type(typeName)
+	if tn == nil {
+		panic(unsupported("prometheus type " + typeName + " not found"))
+	}
+	cell := zero(tn.Type())
+	p := &cell
+	fr.t.r.sideTables[p] = &promCount{}
+	return iface{types.NewPointer(tn.Type()), p}
+}
+
+func (i *interpreter) registerPromModels() {
+	hp := i.harnessPkgPath + "."
+	i.addModel(promPkg+".NewCounter", "model counter: Inc = +1", func(fr *frame, a []value) value {
+		return i.promObj(fr, "counter")
+	})
+	i.addModel("(*"+promPkg+".counter).Inc", "model counter: Inc = +1", func(fr *frame, a []value) value {
+		fr.t.schedPoint("atomic")
+		fr.t.r.sideTables[a[0].(*value)].(*promCount).n++
+		return nil
+	})
+	i.addModel("(*"+promPkg+".counter).Add", "model counter: Add(v) counted as one event", func(fr *frame, a []value) value {
+		fr.t.schedPoint("atomic")
+		fr.t.r.sideTables[a[0].(*value)].(*promCount).n++
+		return nil
+	})
+	i.addModel("(*"+promPkg+".summary).Observe", "model observer: Observe = count+1", func(fr *frame, a []value) value {
+		fr.t.schedPoint("atomic")
+		fr.t.r.sideTables[a[0].(*value)].(*promCount).n++
+		return nil
+	})
+	i.addModel("(*"+promPkg+".histogram).Observe", "model observer: Observe = count+1", func(fr *frame, a []value) value {
+		fr.t.schedPoint("atomic")
+		fr.t.r.sideTables[a[0].(*value)].(*promCount).n++
+		return nil
+	})
+	vec := func(typeName string) modelFn {
+		return func(fr *frame, a []value) value {
+			pkg := fr.i.prog.ImportedPackage(promPkg)
+			tn := pkg.Type(typeName)
+			cell := zero(tn.Type())
+			return &cell
+		}
+	}
+	i.addModel(promPkg+".NewCounterVec", "model vector: one child counter", vec("CounterVec"))
+	i.addModel(promPkg+".NewSummaryVec", "model vector: one child observer", vec("SummaryVec"))
+	child := func(kind string) modelFn {
+		return func(fr *frame, a []value) value {
+			r := fr.t.r
+			p := a[0].(*value)
+			if c, ok := r.sideTables[p]; ok {
+				return c.(iface)
+			}
+			c := i.promObj(fr, kind).(iface)
+			r.sideTables[p] = c
+			return c
+		}
+	}
+	i.addModel("(*"+promPkg+".CounterVec).With", "model vector: With returns the single child", child("counter"))
+	i.addModel("(*"+promPkg+".CounterVec).WithLabelValues", "model vector: child", child("counter"))
+	i.addModel("(*"+promPkg+".SummaryVec).With", "model vector: With returns the single child", child("summary"))
+	i.addModel("(*"+promPkg+".SummaryVec).WithLabelValues", "model vector: child", child("summary"))
+	i.addModel(hp+"vPromCount", "reads a model counter / observer", func(fr *frame, a []value) value {
+		r := fr.t.r
+		x := a[0].(iface)
+		if x.t == nil {
+			return int64(-1)
+		}
+		switch p := x.v.(type) {
+		case *value:
+			switch c := r.sideTables[p].(type) {
+			case *promCount:
+				return c.n
+			case iface: // a vector: its child
+				return r.sideTables[c.v.(*value)].(*promCount).n
+			}
+		}
+		return int64(-1)
+	})
+	i.addModel("github.com/samber/ro/ee/internal/introspection.GetFunctionDescription", "fixed description with 24 arguments (the real one parses the caller's source file)", func(fr *frame, a []value) value {
+		pkg := fr.i.prog.ImportedPackage("github.com/samber/ro/ee/internal/introspection")
+		_ = pkg
+		args := make([]value, 24)
+		for k := range args {
+			args[k] = structure{"op", "file.go:1"}
+		}
+		var cell value = structure{"pipe", "file.go:1", args}
+		return tuple{&cell, iface{}}
+	})
+	i.addModel("github.com/samber/ro/ee/pkg/license.IsEnterpriseEnabled", "no licence installed", func(fr *frame, a []value) value { return false })
 }
